@@ -2,7 +2,7 @@
    bytes of the value (snd (enc (norm v))) at the end of the segment and returns a pointer whose
    word, wherever it is stored, is fst (enc (norm v)).  Q_fill: fillCanonicalStruct writes the
    block (data words, pointer words) and appends the children in pointer order = enc_cells.
-   Domain so far ([sdom]): values built from structs and nulls, of any depth and shape. *)
+   Domain so far ([cdom]): values built from structs and nulls, of any depth and shape. *)
 From CV Require Import Value.ValueEq Value.ValueEqProofs Value.EqualM Value.Den Value.DenFacts Value.DenLists
                        Value.CanonSpec Value.CanonProofs Value.CanonProofs3 Value.CanonM Value.CanonMStruct
                        Value.CanonMWords Value.CanonMData Value.CanonMHeap Value.CanonMLoop Value.CanonSafe Value.EqualProofs Value.CanonMProofs.
@@ -11,11 +11,15 @@ From Coq Require Import ZifyBool ZifyNat.
 Ltac Zify.zify_post_hook ::= Z.div_mod_to_equations.
 Open Scope Z_scope.
 
-(* the domain of this stage: structs and nulls *)
-Fixpoint sdom (v : value) : bool :=
+(* the domain proved so far: no capabilities (Canonicalize reports an error for them), and only
+   the list kinds whose case of canonicalList is proved: void, pointer and struct lists *)
+Fixpoint cdom (v : value) : bool :=
   match v with
   | VNull => true
-  | VStruct _ ps => forallb sdom ps
+  | VStruct _ ps => forallb cdom ps
+  | VList LPtr es => forallb cdom es
+  | VList LComp es => false
+  | VList _ _ => true
   | _ => false
   end.
 
@@ -105,18 +109,68 @@ Proof.
   induction ps as [|y r IH]; [intros []|]. intros [->|H]; cbn [fold_right]; [lia|]. specialize (IH H). lia.
 Qed.
 
+Lemma stripN_firstn l : stripN l = firstn (length (stripN l)) l.
+Proof.
+  induction l as [|y r IH]; [reflexivity|]. cbn [stripN]. destruct (stripN r) eqn:E.
+  - destruct (is_null y); reflexivity.
+  - cbn [length] in *. change (firstn (S (S (length l))) (y :: r)) with (y :: firstn (S (length l)) r).
+    f_equal. exact IH.
+Qed.
+
+Lemma stripN_map_norm_length vs : length (stripN (map norm vs)) = length (stripN vs).
+Proof.
+  induction vs as [|y r IH]; [reflexivity|]. cbn [map stripN].
+  destruct (stripN (map norm r)) eqn:E1; destruct (stripN r) eqn:E2; cbn [length] in IH; try discriminate.
+  - rewrite is_null_norm. destruct (is_null y); reflexivity.
+  - cbn [length]. lia.
+Qed.
+
+Lemma set_slots_end data ws : set_slots (data ++ repeat 0 (8 * length ws)) (zlen data) ws = data ++ bytes_of_words ws.
+Proof.
+  unfold set_slots, zlen. rewrite Nat2Z.id, firstn_app, Nat.sub_diag, firstn_all. cbn [firstn]. rewrite app_nil_r.
+  f_equal. rewrite skipn_all2 by (rewrite app_length, repeat_length; lia). apply app_nil_r.
+Qed.
+
+
+Lemma alloc_bound data cap sz m1 s1 a1 : 0 <= sz <= 4294967288 -> sz mod 8 = 0 ->
+  alloc (seg0 data cap) 0 sz = Ok (m1, s1, a1) -> zlen data + sz <= 4294967288.
+Proof.
+  intros Hs Hmm H. unfold alloc in H. destruct (sz >? maxAllocSize) eqn:E0; [discriminate H|].
+  rewrite (padToWord_mult sz) in H by lia.
+  change (get_seg (seg0 data cap) 0) with (mkBS data cap) in H.
+  destruct (hasCapacity (mkBS data cap) sz) eqn:Hc.
+  - cbn [bind] in H. change (get_seg (seg0 data cap) 0) with (mkBS data cap) in H. unfold blen in H. cbn [bs_data bs_cap] in H.
+    destruct (addSize (zlen data) sz) eqn:Eas; [|discriminate H]. apply addSize_spec in Eas. unfold maxSegmentSize in Eas. lia.
+  - unfold allocSegment in H. rewrite E0 in H. cbn [seg0 bm_arena] in H.
+    change (get_seg (seg0 data cap) 0) with (mkBS data cap) in H.
+    destruct (negb (blen (mkBS data cap) mod 8 =? 0)); [cbn [bind] in H; discriminate H|]. rewrite Hc in H.
+    destruct (nextAlloc (blen (mkBS data cap)) maxAllocSize sz) as [inc| |]; try (cbn [bind] in H; discriminate H).
+    cbn [bind bs_data bs_cap] in H.
+    change (get_seg (put_seg (seg0 data cap) 0 (mkBS data (cap + inc))) 0) with (mkBS data (cap + inc)) in H.
+    unfold blen in H. cbn [bs_data bs_cap] in H.
+    destruct (addSize (zlen data) sz) eqn:Eas; [|discriminate H]. apply addSize_spec in Eas. unfold maxSegmentSize in Eas. lia.
+Qed.
+
 Section Ind.
 Context (c : config) (fx : cfix) (m : segs).
 Context (Hstrict : cfg_strict c = true) (Hfx : all_cfixed fx) (Hm : msg_ok m).
 
-Definition Q_ptr (f : nat) : Prop := forall data cap rl p v w' cp,
-  hinv data -> wf_ptr m p -> aligned p -> den true m 0 [] p v -> sdom v = true ->
-  canonical_ptr c fx f (dstw data cap m rl) 0 p = KOk (w', cp) ->
+(* what canonicalPtr / canonicalList establish: the object's canonical words are appended at the
+   end of the segment, and the returned pointer's word, wherever stored, is the specification's *)
+Definition Qconcl (data : list Z) (v : value) (w' : world) (cp : Ptr) : Prop :=
   exists body cap' rl',
     w' = dstw (data ++ bytes_of_words body) cap' m rl' /\ hinv (data ++ bytes_of_words body) /\
     cp_shape cp (zlen (data ++ bytes_of_words body)) /\
     forall a F, 0 <= a -> a mod 8 = 0 -> a + 8 <= zlen data -> (vdepth (norm v) <= F)%nat ->
       enc F (norm v) (a / 8) (zlen data / 8) = COk (ptr_word cp a, body).
+
+Definition Q_ptr (f : nat) : Prop := forall data cap rl p v w' cp,
+  hinv data -> wf_ptr m p -> aligned p -> den true m 0 [] p v -> cdom v = true ->
+  canonical_ptr c fx f (dstw data cap m rl) 0 p = KOk (w', cp) -> Qconcl data v w' cp.
+
+Definition Q_list (f : nat) : Prop := forall data cap rl p v w' cp,
+  hinv data -> wf_ptr m p -> p_valid p = true -> p_kind p = KList -> den true m 0 [] p v -> cdom v = true ->
+  canonical_list c fx f (dstw data cap m rl) 0 p = KOk (w', cp) -> Qconcl data v w' cp.
 
 (* the destination struct of a fill: a struct of segment 0 at byte address A with dn data words
    and pn pointers, inside the segment *)
@@ -127,7 +181,7 @@ Definition Q_fill (f : nat) : Prop := forall data cap rl dst s ws vs A dn pn w',
   hinv data -> dst_at dst A dn pn -> 0 <= A -> A mod 8 = 0 -> 0 <= dn -> 0 <= pn < 65536 ->
   A + 8 * dn + 8 * pn <= zlen data ->
   p_valid s = true -> p_kind s = KStruct -> wf_ptr m s -> aligned s ->
-  den true m 0 [] s (VStruct ws vs) -> forallb sdom vs = true ->
+  den true m 0 [] s (VStruct ws vs) -> forallb cdom vs = true ->
   dn <= zlen ws -> pn <= zlen vs ->
   fill_canonical c fx f (dstw data cap m rl) dst s = KOk w' ->
   exists pwords kids cap' rl',
@@ -195,7 +249,7 @@ Proof.
     { pose proof (struct_ptr_safe c m rl0 s i Hm (conj Hwf (fun _ => Hk)) ltac:(lia)) as SS.
       rewrite (struct_ptr_unfold c m rl0 s i Hv ltac:(unfold zlen in *; lia)), Hstrict, ER in SS. cbn in SS. apply SS. reflexivity. }
     assert (AP : aligned p0) by (eapply readPtr_aligned; exact ER).
-    assert (SD : sdom (nthv vs i) = true).
+    assert (SD : cdom (nthv vs i) = true).
     { unfold nthv. eapply forallb_In; [exact Hsd|]. apply nth_In. unfold zlen in *. lia. }
     change (w_set_rl (dstw data0 cap0 m rl0) InSrc rl1) with (dstw data0 cap0 m rl1) in Hs0.
     destruct (canonical_ptr c fx f (dstw data0 cap0 m rl1) 0 p0) as [[w2 cp]| | |] eqn:EC; try discriminate.
@@ -237,64 +291,23 @@ Proof.
 Qed.
 
 (* ------------------------------------------------------------------ for the next step (canonicalPtr, struct case):
-   Q_fill f -> Q_ptr (S f) on [sdom]: canonicalStructSize_spec gives the size, alloc_seg0 the fresh block at the end
+   Q_fill f -> Q_ptr (S f) on [cdom]: canonicalStructSize_spec gives the size, alloc_seg0 the fresh block at the end
    (set_slots_end), Q_fill the block and the children; remaining: assembling enc's struct case (enc_cells_app_words,
    size checks, ptr_word = struct_word) -- drafted, not closed in this round *)
-Lemma stripN_firstn l : stripN l = firstn (length (stripN l)) l.
+Lemma ptr_step f : Q_fill f -> Q_list f -> Q_ptr (S f).
 Proof.
-  induction l as [|y r IH]; [reflexivity|]. cbn [stripN]. destruct (stripN r) eqn:E.
-  - destruct (is_null y); reflexivity.
-  - cbn [length] in *. change (firstn (S (S (length l))) (y :: r)) with (y :: firstn (S (length l)) r).
-    f_equal. exact IH.
-Qed.
-
-Lemma stripN_map_norm_length vs : length (stripN (map norm vs)) = length (stripN vs).
-Proof.
-  induction vs as [|y r IH]; [reflexivity|]. cbn [map stripN].
-  destruct (stripN (map norm r)) eqn:E1; destruct (stripN r) eqn:E2; cbn [length] in IH; try discriminate.
-  - rewrite is_null_norm. destruct (is_null y); reflexivity.
-  - cbn [length]. lia.
-Qed.
-
-Lemma set_slots_end data ws : set_slots (data ++ repeat 0 (8 * length ws)) (zlen data) ws = data ++ bytes_of_words ws.
-Proof.
-  unfold set_slots, zlen. rewrite Nat2Z.id, firstn_app, Nat.sub_diag, firstn_all. cbn [firstn]. rewrite app_nil_r.
-  f_equal. rewrite skipn_all2 by (rewrite app_length, repeat_length; lia). apply app_nil_r.
-Qed.
-
-
-Lemma alloc_bound data cap sz m1 s1 a1 : 0 <= sz <= 4294967288 -> sz mod 8 = 0 ->
-  alloc (seg0 data cap) 0 sz = Ok (m1, s1, a1) -> zlen data + sz <= 4294967288.
-Proof.
-  intros Hs Hmm H. unfold alloc in H. destruct (sz >? maxAllocSize) eqn:E0; [discriminate H|].
-  rewrite (padToWord_mult sz) in H by lia.
-  change (get_seg (seg0 data cap) 0) with (mkBS data cap) in H.
-  destruct (hasCapacity (mkBS data cap) sz) eqn:Hc.
-  - cbn [bind] in H. change (get_seg (seg0 data cap) 0) with (mkBS data cap) in H. unfold blen in H. cbn [bs_data bs_cap] in H.
-    destruct (addSize (zlen data) sz) eqn:Eas; [|discriminate H]. apply addSize_spec in Eas. unfold maxSegmentSize in Eas. lia.
-  - unfold allocSegment in H. rewrite E0 in H. cbn [seg0 bm_arena] in H.
-    change (get_seg (seg0 data cap) 0) with (mkBS data cap) in H.
-    destruct (negb (blen (mkBS data cap) mod 8 =? 0)); [cbn [bind] in H; discriminate H|]. rewrite Hc in H.
-    destruct (nextAlloc (blen (mkBS data cap)) maxAllocSize sz) as [inc| |]; try (cbn [bind] in H; discriminate H).
-    cbn [bind bs_data bs_cap] in H.
-    change (get_seg (put_seg (seg0 data cap) 0 (mkBS data (cap + inc))) 0) with (mkBS data (cap + inc)) in H.
-    unfold blen in H. cbn [bs_data bs_cap] in H.
-    destruct (addSize (zlen data) sz) eqn:Eas; [|discriminate H]. apply addSize_spec in Eas. unfold maxSegmentSize in Eas. lia.
-Qed.
-
-Lemma ptr_step f : Q_fill f -> Q_ptr (S f).
-Proof.
-  intros HF data cap rl p v w' cp Hi Hwf Hal D Hsd H. rewrite canonical_ptr_S in H.
+  intros HF HL data cap rl p v w' cp Hi Hwf Hal D Hsd H. rewrite canonical_ptr_S in H.
   destruct (p_valid p) eqn:Hv; cbn [negb] in H.
   2:{ (* null *)
     inversion H; subst w' cp; clear H. pose proof (den_null_iff _ _ _ _ _ _ D) as Hn. rewrite Hv in Hn.
     destruct v; try discriminate. exists [], cap, rl. cbn [bytes_of_words flat_map]. rewrite app_nil_r.
     split; [reflexivity|]. split; [exact Hi|]. split; [left; reflexivity|].
     intros a F _ _ _ HFd. cbn [norm vdepth] in HFd. destruct F; [lia|]. reflexivity. }
-  destruct v as [| |ws0 vs| |]; try discriminate.
-  { pose proof (den_null_iff _ _ _ _ _ _ D) as Hn. rewrite Hv in Hn. discriminate. }
-  assert (Hk : p_kind p = KStruct) by (inversion D; subst; congruence).
-  rewrite Hk in H. destruct Hfx as (_ & _ & Hfn & _). rewrite Hfn, Hstrict in H. cbn [w_src dstw] in H.
+  destruct (p_kind p) eqn:Hk.
+  2:{ exact (HL data cap rl p v w' cp Hi Hwf Hv Hk D Hsd H). }
+  2:{ discriminate H. }
+  destruct v as [| |ws0 vs| |]; try (exfalso; inversion D; subst; congruence).
+  destruct Hfx as (_ & _ & Hfn & _). rewrite Hfn, Hstrict in H. cbn [w_src dstw] in H.
   destruct (canonicalStructSize_spec m 0 [] p _ Hm Hwf Hv Hk (Hal Hk) D) as (ws' & vs' & E & Hcss).
   inversion E; subst ws' vs'; clear E. rewrite Hcss in H. cbn [of_res kbind] in H.
   destruct (den_struct_inv _ _ _ _ _ _ D Hv Hk) as (d & vs0 & Ev & Wz & Sl & Lvs & _).
@@ -387,165 +400,5 @@ Proof.
     rewrite Hcells. cbn [cbind fst snd]. replace (8 * k / 8) with k by lia. reflexivity.
 Qed.
 
-(* ------------------------------------------------------------------ all fuels *)
-Theorem Q_all : forall f, Q_ptr f /\ Q_fill f.
-Proof.
-  induction f as [|f [IHp IHf]].
-  - split.
-    + intros data cap rl p v w' cp _ _ _ _ _ H. discriminate H.
-    + intros data cap rl dst s ws vs A dn pn w' _ _ _ _ _ _ _ _ _ _ _ _ _ _ _ H. discriminate H.
-  - split; [apply ptr_step; exact IHf| apply fill_step; exact IHp].
-Qed.
-
-(* ------------------------------------------------------------------ enc of a struct from its cells *)
-Lemma enc_struct_assemble ws vs pwords kids pos cur F :
-  let k := zlen (strip0 ws) in let j := zlen (stripN vs) in
-  k <= 65535 -> j < 65536 -> zlen pwords = j -> cur - pos - 1 < 536870912 ->
-  (vdepth (norm (VStruct ws vs)) <= F)%nat ->
-  (forall F', (forall i, 0 <= i < j -> (vdepth (norm (nthv vs i)) <= F')%nat) ->
-     enc_cells (enc F') (map CP (firstn (Z.to_nat j) (map norm vs))) (cur + k) (cur + k + j) = COk (pwords, kids)) ->
-  enc F (norm (VStruct ws vs)) pos cur
-  = COk (if (k =? 0) && (j =? 0) then struct_word (-1) 0 0 else struct_word (cur - pos - 1) k j,
-         (strip0 ws ++ pwords) ++ kids).
-Proof.
-  intros k j Hk0 Hj0 Lp Hoff HFd Hcells.
-  assert (Kn : 0 <= k) by (unfold k, zlen; lia). assert (Jn : 0 <= j) by (unfold j, zlen; lia).
-  set (ps' := stripN (map norm vs)) in *.
-  assert (Eps : ps' = firstn (Z.to_nat j) (map norm vs)).
-  { unfold ps', j, zlen. rewrite Nat2Z.id, <- stripN_map_norm_length. apply stripN_firstn. }
-  assert (Lps : zlen ps' = j) by (unfold ps', j, zlen; rewrite stripN_map_norm_length; reflexivity).
-  change (norm (VStruct ws vs)) with (VStruct (strip0 ws) ps') in *.
-  destruct F as [|F']; [cbn [vdepth] in HFd; lia|].
-  assert (HFk : forall i, 0 <= i < j -> (vdepth (norm (nthv vs i)) <= F')%nat).
-  { intros i Hi0. cbn [vdepth] in HFd.
-    assert (Hin : In (norm (nthv vs i)) ps').
-    { assert (En : norm (nthv vs i) = nth (Z.to_nat i) (map norm vs) VNull)
-        by (unfold nthv; symmetry; exact (map_nth norm vs VNull (Z.to_nat i))).
-      assert (Lj : (length (stripN vs) <= length vs)%nat) by (rewrite (stripN_firstn vs) at 1; rewrite firstn_length; lia).
-      rewrite En, Eps. rewrite <- (nth_firstn_lt (Z.to_nat i) (Z.to_nat j)) by lia. apply nth_In.
-      rewrite firstn_length, map_length. unfold j, zlen in *. lia. }
-    pose proof (vdepth_in_fold_max _ _ Hin). lia. }
-  specialize (Hcells F' HFk).
-  cbn [enc]. fold k. rewrite Lps.
-  destruct ((k =? 0) && (j =? 0)) eqn:E0.
-  - assert (k = 0 /\ j = 0) as [Ek Ej] by lia.
-    destruct (strip0 ws) eqn:Es; [|unfold k, zlen in Ek; cbn [length] in Ek; lia].
-    destruct pwords; [|unfold zlen in Lp; cbn [length] in Lp; lia].
-    rewrite Ej in Hcells. cbn [Z.to_nat firstn map enc_cells] in Hcells. inversion Hcells. reflexivity.
-  - unfold two16, two29.
-    destruct ((k >=? 65536) || (j >=? 65536) || (cur - pos - 1 >=? 536870912)) eqn:E1; [lia|].
-    unfold struct_cells. rewrite enc_cells_app_words. fold k. rewrite <- Eps in Hcells. rewrite Hcells.
-    cbn [cbind fst snd]. reflexivity.
-Qed.
-
-(* ------------------------------------------------------------------ Canonicalize itself *)
-Lemma put_word_head hdr rest w : length hdr = 8%nat -> put_word (hdr ++ rest) 0 w = le_encode 8 w ++ rest.
-Proof.
-  intros Hh. unfold put_word. cbn [Z.to_nat firstn app Nat.add]. rewrite <- Hh, skipn_app, Nat.sub_diag, skipn_all. reflexivity.
-Qed.
-
-Theorem canon_m_sdom : forall fuel rl s v bs rl',
-  wf_ptr m s -> (p_valid s = true -> p_kind s = KStruct /\ DataSize (p_size s) mod 8 = 0) ->
-  den true m 0 [] s v -> sdom v = true ->
-  canonicalize c fx fuel m rl s = (KOk bs, rl') -> canon v = Some bs.
-Proof.
-  intros fuel rl s v bs rl' Hwf Hks D Hsd H.
-  destruct (p_valid s) eqn:Hv.
-  2:{ destruct (canon_m_null_partial fuel c fx m rl s Hv) as [C1 C2]. rewrite C1 in H. inversion H; subst.
-      pose proof (den_null_iff _ _ _ _ _ _ D) as Hn. rewrite Hv in Hn. destruct v; try discriminate. exact C2. }
-  destruct (Hks eq_refl) as [Hk Hal0]. assert (Hal : aligned s) by (intros _; exact Hal0).
-  destruct v as [| |ws0 vs| |]; try discriminate.
-  { pose proof (den_null_iff _ _ _ _ _ _ D) as Hn. rewrite Hv in Hn. discriminate. }
-  destruct (canonicalStructSize_spec m 0 [] s _ Hm Hwf Hv Hk Hal0 D) as (ws' & vs' & E & Hcss).
-  inversion E; subst ws' vs'; clear E.
-  destruct (den_struct_inv _ _ _ _ _ _ D Hv Hk) as (d & vs0 & Ev & Wz & Sl & Lvs & _).
-  inversion Ev; subst ws0 vs0; clear Ev.
-  set (ws := words_of_bytes d) in *.
-  set (k := zlen (strip0 ws)) in *. set (j := zlen (stripN vs)) in *.
-  destruct Wz as [Wd Wp].
-  apply slice_eq_sub in Sl as Sl'; [|apply seg_of_ok; assumption| lia]. destruct Sl' as (Ed & B1 & B2).
-  assert (Ld : zlen d = DataSize (p_size s)) by (rewrite Ed; apply sub_length; lia).
-  pose proof (words_of_bytes_length d) as Lw. fold ws in Lw.
-  pose proof (strip0_length_le ws) as Lk.
-  assert (Lj : (length (stripN vs) <= length vs)%nat) by (rewrite (stripN_firstn vs) at 1; rewrite firstn_length; lia).
-  assert (Hk0 : 0 <= k <= 65535) by (unfold k, zlen in *; lia).
-  assert (Hj0 : 0 <= j < 65536) by (unfold j, zlen in *; lia).
-  destruct Hfx as (_ & _ & Hfn & _).
-  unfold canonicalize in H.
-  replace (new_message ASingle [] 0) with (Ok m0) in H by (vm_compute; reflexivity).
-  rewrite Hv in H. cbn [negb] in H. cbv zeta in H. rewrite Hfn, Hstrict, Hcss in H. cbn [of_res kbind] in H.
-  unfold newStruct, os_isValid in H. cbn [DataSize PointerCount] in H.
-  destruct (8 * k <=? 65535 * 8) eqn:E8; [|lia]. cbn [negb] in H.
-  rewrite (padToWord_mult (8 * k)) in H by lia.
-  replace (totalSize (mkOS (8 * k) j)) with (8 * k + 8 * j) in H
-    by (unfold totalSize, pointerSize, u32; cbn [DataSize PointerCount]; lia).
-  unfold lift in H. change m0 with (seg0 (repeat 0 8%nat) 1024) in H.
-  destruct (alloc (seg0 (repeat 0 8%nat) 1024) 0 (8 * k + 8 * j)) as [[[m1 sid1] addr]| |] eqn:Ea;
-    try (cbn [bind of_res kbind] in H; discriminate H).
-  destruct (alloc_seg0 (repeat 0 8%nat) 1024 (8 * k + 8 * j) m1 sid1 addr eq_refl ltac:(lia) Ea) as (cap1 & -> & -> & ->).
-  rewrite (padToWord_mult (8 * k + 8 * j)) in * by lia.
-  cbn [bind of_res kbind w_set_dst w_src w_src_rl] in H.
-  change (zlen (repeat 0 8%nat)) with 8 in *.
-  set (ss := mkPtr true 0 8 0 (mkOS (8 * k) j) maxDepth KStruct false false false) in *.
-  set (z := repeat 0 (Z.to_nat (8 * k + 8 * j))) in *.
-  assert (Lz : length z = Z.to_nat (8 * k + 8 * j)) by (unfold z; apply repeat_length).
-  change (w_set_dst (mkW (seg0 (repeat 0 8%nat) 1024) m rl) (seg0 (repeat 0 8%nat ++ z) cap1))
-    with (dstw (repeat 0 8%nat ++ z) cap1 m rl) in H.
-  assert (L1 : zlen (repeat 0 8%nat ++ z) = 8 + 8 * k + 8 * j) by (rewrite zlen_app; unfold zlen; rewrite Lz; cbn [repeat length]; lia).
-  assert (Hshape : forall hdr, length hdr = 8%nat -> cp_shape ss (zlen (hdr ++ z))).
-  { intros hdr Hh. right. unfold ss. cbn [p_valid p_seg p_member p_off p_kind p_size].
-    split; [reflexivity|]. split; [reflexivity|]. split; [reflexivity|]. split; [reflexivity|].
-    split; [rewrite zlen_app; unfold zlen; lia| unfold os_wf; cbn [DataSize PointerCount]; lia]. }
-  (* SetRoot, twice *)
-  set (w := ptr_word ss 0) in *.
-  unfold set_root, set_root_gen in H. cbn [w_dst dstw seg0 bm_segs bs_data] in H.
-  assert (RB : forall hdr, length hdr = 8%nat -> regionInBounds (hdr ++ z) 0 8 = true).
-  { intros hdr Hh. unfold regionInBounds, addSize, maxSegmentSize. cbn [Z.add]. change (8 >? 4294967288) with false. cbv iota.
-    rewrite zlen_app. unfold zlen. lia. }
-  rewrite (RB (repeat 0 8%nat) eq_refl) in H. cbn [negb] in H.
-  change (mkW (mkBM ASingle [mkBS (repeat 0 8%nat ++ z) cap1] [] 0) m rl) with (dstw (repeat 0 8%nat ++ z) cap1 m rl) in H.
-  rewrite (write_ptr_seg0 3) in H; try lia; try (apply Hshape; reflexivity).
-  fold w in H. rewrite (put_word_head (repeat 0 8%nat) z w eq_refl) in H. cbn [of_res kbind] in H.
-  cbn [w_dst dstw seg0 bm_segs bs_data] in H.
-  rewrite (RB (le_encode 8 w) (le_encode_length 8 w)) in H. cbn [negb] in H.
-  change (mkW (mkBM ASingle [mkBS (le_encode 8 w ++ z) cap1] [] 0) m rl) with (dstw (le_encode 8 w ++ z) cap1 m rl) in H.
-  assert (L2 : zlen (le_encode 8 w ++ z) = 8 + 8 * k + 8 * j) by (rewrite zlen_app; unfold zlen; rewrite Lz, le_encode_length; lia).
-  rewrite (write_ptr_seg0 3) in H; try lia; try (apply Hshape; apply le_encode_length).
-  fold w in H. rewrite (put_word_head (le_encode 8 w) z w (le_encode_length 8 w)) in H. cbn [of_res kbind] in H.
-  (* fill *)
-  destruct (fill_canonical c fx fuel (dstw (le_encode 8 w ++ z) cap1 m rl) ss s) as [w2| | |] eqn:Ef; try discriminate H.
-  inversion H; subst bs rl'; clear H.
-  destruct (Q_all fuel) as [_ HF].
-  assert (Hinv1 : hinv (le_encode 8 w ++ z)) by (split; lia).
-  assert (Hdst : dst_at ss 8 k j) by (unfold dst_at, ss; cbn; repeat split; reflexivity).
-  assert (T3 : k <= zlen ws) by (unfold k, zlen in *; lia). assert (T4 : j <= zlen vs) by (unfold j, zlen in *; lia).
-  destruct (HF _ cap1 rl ss s ws vs 8 k j w2 Hinv1 Hdst ltac:(lia) eq_refl ltac:(lia) Hj0 ltac:(lia)
-               Hv Hk Hwf Hal D Hsd T3 T4 Ef)
-    as (pwords & kids & cap2 & rl2 & Lp & -> & Hinv2 & Hcells).
-  cbn [w_dst dstw]. change (get_seg (seg0 ?x cap2) 0) with (mkBS x cap2).
-  set (dws := firstn (Z.to_nat k) ws) in *.
-  assert (Edws : dws = strip0 ws) by (unfold dws, k, zlen; rewrite Nat2Z.id; symmetry; apply strip0_firstn).
-  assert (Lblock : length (dws ++ pwords) = Z.to_nat (k + j)) by (rewrite app_length, Edws; unfold k, zlen in *; lia).
-  assert (Edata : set_slots (le_encode 8 w ++ z) 8 (dws ++ pwords) = le_encode 8 w ++ bytes_of_words (dws ++ pwords)).
-  { unfold z. replace (Z.to_nat (8 * k + 8 * j)) with (8 * length (dws ++ pwords))%nat by lia.
-    exact (set_slots_end (le_encode 8 w) (dws ++ pwords)). }
-  (* the specification *)
-  unfold canon, canon_words.
-  pose proof (enc_struct_assemble ws vs pwords kids 0 1 (S (vdepth (norm (VStruct ws vs)))) ltac:(fold k; lia) ltac:(fold j; lia)
-                Lp ltac:(lia) ltac:(lia)) as Henc.
-  fold k j in Henc. rewrite Henc.
-  2:{ intros F' HF'. specialize (Hcells F' HF'). replace (8 / 8 + k) with (1 + k) in Hcells by lia.
-      rewrite L2 in Hcells. replace ((8 + 8 * k + 8 * j) / 8) with (1 + k + j) in Hcells by lia. exact Hcells. }
-  cbn [cbind fst snd]. f_equal.
-  change (bs_data (get_seg (seg0 (set_slots (le_encode 8 w ++ z) 8 (dws ++ pwords) ++ bytes_of_words kids) cap2) 0))
-    with (set_slots (le_encode 8 w ++ z) 8 (dws ++ pwords) ++ bytes_of_words kids).
-  rewrite Edata, Edws. cbn [bs_data].
-  change (bytes_of_words (?x :: ?r)) with (le_encode 8 x ++ bytes_of_words r).
-  rewrite (bow_app (strip0 ws ++ pwords) kids), <- app_assoc. f_equal. f_equal.
-  unfold w, ptr_word, ss. cbn [p_valid negb p_kind p_size p_off]. unfold os_isZero. cbn [DataSize PointerCount].
-  destruct ((k =? 0) && (j =? 0)) eqn:E0.
-  - replace ((8 * k =? 0) && (j =? 0)) with true by lia. reflexivity.
-  - replace ((8 * k =? 0) && (j =? 0)) with false by lia. replace (8 * k / 8) with k by lia. reflexivity.
-Qed.
 
 End Ind.
